@@ -832,22 +832,29 @@ func findSegmentData(segs []*MediaSegment, refTrak *TrakBox, trex *TrexBox) ([]s
 		var firstCompositionTimeOffest int64
 		dur := uint64(0)
 		var baseTime uint64
-		for fIdx, frag := range seg.Fragments {
+		// The presentation time of the segment is that of the first sample of the reference track in it:
+		// the fragment, track fragment and trun that hold this sample need not be the first ones.
+		haveBaseTime := false    // a traf of the reference track has been seen in this segment
+		haveFirstSample := false // a sample of the reference track has been seen in this segment
+		for _, frag := range seg.Fragments {
 			if frag.Moof == nil { // fragment opened by an emsg box that no moof followed
 				return nil, fmt.Errorf("fragment without moof box")
 			}
 			for _, traf := range frag.Moof.Trafs {
 				tfhd := traf.Tfhd
 				if tfhd.TrackID == refTrak.Tkhd.TrackID { // Find track that gives sidx time values
-					if fIdx == 0 {
+					if !haveBaseTime {
 						baseTime = traf.Tfdt.BaseMediaDecodeTime()
+						haveBaseTime = true
 					}
-					for i, trun := range traf.Truns {
+					for _, trun := range traf.Truns {
 						trun.AddSampleDefaultValues(tfhd, trex)
 						samples := trun.GetSamples()
-						for j, sample := range samples {
-							if fIdx == 0 && i == 0 && j == 0 {
+						for _, sample := range samples {
+							if !haveFirstSample {
+								baseTime = traf.Tfdt.BaseMediaDecodeTime()
 								firstCompositionTimeOffest = int64(sample.CompositionTimeOffset)
+								haveFirstSample = true
 							}
 							dur += uint64(sample.Dur)
 						}
